@@ -457,7 +457,7 @@ impl <N: Numeric> ArrayCreateNumeric<N> for Array<N> {
     fn linspace(start: N, stop: N, num: Option<usize>, endpoint: Option<bool>) -> Result<Self, ArrayError> {
         let (num, endpoint) = (num.unwrap_or(50), endpoint.unwrap_or(true));
         let delta = endpoint.to_usize();
-        let step = (stop.to_f64() - start.to_f64()) / (num - delta).to_f64();
+        let step = (stop.to_f64() - start.to_f64()) / num.saturating_sub(delta).to_f64();
 
         let result = (0..num)
             .map(|i| i.to_f64().mul_add(step, start.to_f64())).enumerate()
@@ -469,7 +469,7 @@ impl <N: Numeric> ArrayCreateNumeric<N> for Array<N> {
     fn linspace_a(start: &Self, stop: &Self, num: Option<usize>, endpoint: Option<bool>) -> Result<Self, ArrayError> {
         let start = if start.len()? == 1 { Self::full_like(stop, start[0])? } else { start.clone() };
         let stop = if stop.len()? == 1 { Self::full_like(&start, stop[0])? } else { stop.clone() };
-        assert_eq!(start.get_shape(), stop.get_shape());
+        start.matches_shape(&stop.get_shape()?)?;
         let mut new_shape = vec![num.unwrap_or(50)];
         new_shape.extend(start.get_shape()?.iter().copied());
         new_shape.reverse();
@@ -488,7 +488,7 @@ impl <N: Numeric> ArrayCreateNumeric<N> for Array<N> {
         let (num, endpoint, base) = (num.unwrap_or(50), endpoint.unwrap_or(true), base.unwrap_or(10).to_f64());
         let delta = endpoint.to_usize();
         let (log_start, log_stop) = (base.powf(start.to_f64()), base.powf(stop.to_f64()));
-        let log_step = (log_stop / log_start).powf(1. / (num - delta).to_f64());
+        let log_step = (log_stop / log_start).powf(1. / num.saturating_sub(delta).to_f64());
 
         let result = (0..num)
             .map(|i| log_start * log_step.powf(i.to_f64()))
@@ -532,7 +532,7 @@ impl <N: Numeric> ArrayCreateNumeric<N> for Array<N> {
 
         let (num, endpoint) = (num.unwrap_or(50), endpoint.unwrap_or(true));
         let delta = endpoint.to_usize();
-        let ratio = (stop.to_f64() / start.to_f64()).to_f64().powf(1.0 / (num - delta).to_f64());
+        let ratio = (stop.to_f64() / start.to_f64()).to_f64().powf(1.0 / num.saturating_sub(delta).to_f64());
 
         let result = (0..num)
             .map(|i| start.to_f64() * ratio.powf(i.to_f64()))
